@@ -83,19 +83,21 @@ class MPLSVPN(NLRI):
                 nlri_dict['label'] = cls.parse_mpls_label_stack(value[1:])
             else:
                 nlri_dict['label'] = [MPLSVPN.WITHDARW_LABEL]
+            # the RD follows the label stack (3 octets per label)
+            label_len = 3 * max(len(nlri_dict['label']), 1)
 
-            nlri_dict['rd'] = MPLSVPN.parse_rd(value[4:12])
-            prefix = value[12:prefix_byte_len + 1]
+            nlri_dict['rd'] = MPLSVPN.parse_rd(value[1 + label_len:9 + label_len])
+            prefix = value[9 + label_len:prefix_byte_len + 1]
             if cls.AFI == afn.AFNUM_INET and cls.SAFI == safn.SAFNUM_LAB_VPNUNICAST:
                 if len(prefix) < 4:
                     prefix += b'\x00' * (4 - len(prefix))
                 nlri_dict['prefix'] = str(netaddr.IPAddress(struct.unpack('!I', prefix)[0])) +\
-                    '/%s' % (prefix_bit_len - 88)
+                    '/%s' % (prefix_bit_len - 64 - 8 * label_len)
             elif cls.AFI == afn.AFNUM_INET6 and cls.SAFI == safn.SAFNUM_LAB_VPNUNICAST:
                 if len(prefix) < 16:
                     prefix += b'\x00' * (16 - len(prefix))
                 nlri_dict['prefix'] = str(netaddr.IPAddress(int(binascii.b2a_hex(prefix), 16), version=6)) +\
-                    '/%s' % (prefix_bit_len - 88)
+                    '/%s' % (prefix_bit_len - 64 - 8 * label_len)
             value = value[prefix_byte_len + 1:]
             nlri_list.append(nlri_dict)
         return nlri_list
